@@ -226,6 +226,73 @@ func drbgScenario(sname string, seed []byte) mc.Scenario {
 	}}
 }
 
+// drbgHistories: every sequence of {keep a block, scribble over a returned
+// block, Int63} up to the depth, against the reference generator: output is a
+// function of the seed and the number of draws only, and a block that was
+// handed out never changes afterwards.
+func drbgHistories(sname string, seed []byte, depth int) mc.Scenario {
+	return mc.Scenario{Name: "drbg-history/" + sname, Run: func(c *mc.Ctx) {
+		n := 0
+		var rec func(hist []int)
+		rec = func(hist []int) {
+			if c.Failed() {
+				return
+			}
+			if len(hist) > 0 {
+				n++
+				g := mustDrbg(seed)
+				r := ref.NewDrbg(seed)
+				type kept struct {
+					at   int
+					b    []byte
+					want []byte
+				}
+				var keep []kept
+				for i, op := range hist {
+					want := r.NextBlock()
+					switch op {
+					case 0, 1:
+						b := g.NextBlock()
+						if !bytes.Equal(b, want) {
+							fail(c, "drbg", "drbg/history/block", "history %v: block %d is %x, reference %x", hist, i, b, want)
+							return
+						}
+						if op == 0 {
+							keep = append(keep, kept{i, b, append([]byte{}, want...)})
+						} else {
+							for j := range b {
+								b[j] ^= 0xa5
+							}
+						}
+					case 2:
+						a := g.Int63()
+						if w := int64(binary.BigEndian.Uint64(want) & (1<<63 - 1)); a != w {
+							fail(c, "drbg", "drbg/history/int63", "history %v: Int63 at step %d is %d, reference %d", hist, i, a, w)
+							return
+						}
+					}
+				}
+				for _, k := range keep {
+					if !bytes.Equal(k.b, k.want) {
+						fail(c, "drbg", "drbg/history/kept-block-changed", "history %v: the block returned at step %d read %x afterwards, it was %x when returned", hist, k.at, k.b, k.want)
+						return
+					}
+				}
+			}
+			if len(hist) == depth {
+				return
+			}
+			for op := 0; op < 3; op++ {
+				rec(append(append([]int{}, hist...), op))
+			}
+		}
+		rec(nil)
+		c.Count("drbg_histories", int64(n))
+		c.AddExecutions(int64(n))
+		c.Observe("drbg-histories", n)
+	}}
+}
+
 func mustDrbg(seed []byte) *drbg.HashDrbg {
 	g, err := drbg.NewHashDrbg(mkSeed(seed))
 	if err != nil {
@@ -321,6 +388,20 @@ func helperScenario() mc.Scenario {
 				return
 			}
 		}
+		// boundary words: the largest 63-bit draws round up to 1.0 as a float64
+		// and must never be returned (the range is half open)
+		for _, w := range []uint64{1<<63 - 1, 1<<64 - 1, 1<<63 - 512, 1<<63 - 513, 1<<63 - 1024, 1<<63 - 1025, 0xfffffffffffffe00, 1 << 63, 1<<62 - 1} {
+			var b [16]byte
+			binary.BigEndian.PutUint64(b[:8], w)
+			binary.BigEndian.PutUint64(b[8:], 1<<62) // the draw after a rejected one: 0.5
+			stream.Script = b[:]
+			got := csrand.Float64()
+			cases++
+			if got < 0 || got >= 1 {
+				fail(c, "helpers", "helpers/float64-range", "Float64() with the scripted 64-bit word %#x returned %v, outside [0,1)", w, got)
+				return
+			}
+		}
 		stream.Script = nil
 		buf := make([]byte, 64)
 		want := append([]byte{}, rnd.New(1, "c12-bytes").Bytes(64)...)
@@ -344,6 +425,11 @@ func main() {
 				}
 			}
 			emit(drbgScenario(sn, s))
+			d := 5
+			if cfg.Thorough() {
+				d = 8
+			}
+			emit(drbgHistories(sn, s, d))
 		}
 		emit(helperScenario())
 	})
